@@ -69,6 +69,36 @@ pub fn run_one(src: &str) {
     emit("solve", &r7, &why7, "ok", t.elapsed().as_millis());
 }
 
+/// The builder stages for `builder_sum` cases: build + linearize, then solve.
+pub fn run_builder_sum(n: usize) {
+    let out = std::io::stdout();
+    let mut emit = |name: &str, res: &str, why: &str, ms: u128| {
+        let mut o = out.lock();
+        writeln!(o, "{}", json!({"stage":name,"res":res,"why":why.chars().take(200).collect::<String>(),"render":"ok","ms":ms as u64})).unwrap();
+        o.flush().unwrap();
+    };
+    for st in ["parse", "format", "type_check", "transform"] {
+        emit(st, "ok", "", 0);
+    }
+    let t = Instant::now();
+    let mut mb = rooc::ModelBuilder::new();
+    let xs = mb.add_vars("x", n, rooc::VariableType::NonNegativeReal(0.0, f64::INFINITY));
+    let first: rooc::Expr = xs[0].into();
+    let mb = mb
+        .minimize(rooc::builder::sum(xs.iter().copied()))
+        .with(rooc::BuilderConstraint::new(first, rooc::Comparison::GreaterOrEqual, rooc::Expr::Number(1.0), "c".to_string()));
+    let mb2 = mb.clone();
+    let (r, lm, why) = stage(|| mb2.linearize().map_err(|e| e.to_string()));
+    emit("linearize", &r, &why, t.elapsed().as_millis());
+    if lm.is_none() {
+        return;
+    }
+    emit("standardize", "ok", "", 0);
+    let t = Instant::now();
+    let (r2, _, why2) = stage(|| mb.solve_with(rooc::Auto).map(|s| s.value().to_string()).map_err(|e| e.to_string()));
+    emit("solve", &r2, &why2, t.elapsed().as_millis());
+}
+
 /// Parent: one child per case, watchdog per case (`limit` for the whole child).
 pub fn run_case(exe: &str, case: &Value, limit: Duration) -> Value {
     let src = case["text"].as_str().unwrap_or("");
@@ -78,6 +108,11 @@ pub fn run_case(exe: &str, case: &Value, limit: Duration) -> Value {
     cmd.arg("total-one");
     if case["stack"] == "thread" {
         cmd.arg("--thread");
+    }
+    // `builder_sum: n`: the model `min sum(x_0 .. x_{n-1}) s.t. x_0 >= 1` built with the fluent builder
+    // (helper sum()) instead of a source text
+    if let Some(n) = case.get("builder_sum").and_then(|n| n.as_u64()) {
+        cmd.arg("--builder-sum").arg(n.to_string());
     }
     let mut child = cmd
         .stdin(Stdio::piped())
